@@ -329,13 +329,24 @@ impl<'a> HuginnNet<'a> {
             HuginnNetError::MissConfiguration(format!("Failed to create PCAP reader: {e}"))
         })?;
 
+        // A capture file is read sequentially: after a record that cannot be read the reader stays
+        // where it is and fails again on every call, so the first read error ends the input.
+        let mut failed = false;
         self.process_with(
-            move || match pcap_reader.next_packet() {
-                Some(Ok(packet)) => Some(Ok(packet.data.to_vec())),
-                Some(Err(e)) => Some(Err(HuginnNetError::MissConfiguration(format!(
-                    "Error reading PCAP packet: {e}"
-                )))),
-                None => None,
+            move || {
+                if failed {
+                    return None;
+                }
+                match pcap_reader.next_packet() {
+                    Some(Ok(packet)) => Some(Ok(packet.data.to_vec())),
+                    Some(Err(e)) => {
+                        failed = true;
+                        Some(Err(HuginnNetError::MissConfiguration(format!(
+                            "Error reading PCAP packet: {e}"
+                        ))))
+                    }
+                    None => None,
+                }
             },
             sender,
             cancel_signal,
